@@ -424,7 +424,24 @@ def mkReforming (reformation : Int) : Except ReformingError Calendar :=
 
 end Calendar
 
+namespace IShape
+/-- derived `Hash for inner::MonthShape`: the discriminant, then the fields in order -/
+def hashKey : IShape → List Int
+  | normal a => [0, a]
+  | headless a b => [1, a, b]
+  | tailless a b => [2, a, b]
+  | gapped a b c => [3, a, b, c]
+end IShape
+
 namespace MonthShape
+
+/-- derived `PartialEq for MonthShape`: field-wise, with `Calendar`'s hand-written `==` -/
+def beq (a b : MonthShape) : Bool :=
+  a.calendar.beq b.calendar && a.year == b.year && a.month == b.month && a.inner == b.inner
+
+/-- derived `Hash for MonthShape`: the values written to the hasher, in field order -/
+def hashKey (s : MonthShape) : List Int :=
+  s.calendar.hashKey ++ [s.year, s.month.number] ++ s.inner.hashKey
 
 def len (s : MonthShape) : Int := s.inner.len
 def contains (s : MonthShape) (day : Int) : Bool := s.inner.contains day
